@@ -30,6 +30,11 @@ ASSUMPTIONS = [
     "allsorts does not implement them either (UnsupportedOperator); no repository font uses them",
     "seac components are complete charstrings of their own (own width prefix, own stem count), as TN5177 appendix C, "
     "FreeType and HarfBuzz read them; the accent's origin is (adx, ady)",
+    "seac codes are resolved StandardEncoding code -> SID -> glyph id through the font's charset (formats 0, 1, 2 and the "
+    "predefined ISOAdobe / Expert / ExpertSubset charsets, a predefined charset reaching as far as the font has glyphs); "
+    "a code whose glyph the font does not have makes the program not well formed: the glyph must be rejected (any error; "
+    "FreeType and HarfBuzz reject too), delivering an outline for it is reported; codes without a StandardEncoding entry "
+    "(.notdef: FreeType composes, HarfBuzz rejects) are neither generated nor judged",
     "a subroutine count decides the bias exactly as TN5176 section 16 (107 / 1131 / 32768 at 1240 and 33900)",
     "region scalars follow the OpenType variations overview for well-formed regions; regions with start > peak or "
     "straddling zero are not modelled",
@@ -44,9 +49,18 @@ NEEDED_OPS = PATH_OPS + ["rmoveto", "hmoveto", "vmoveto", "hstem", "vstem", "hst
 NEEDED_VAC = ["width_present", "width_absent", "mask_bytes_0", "mask_bytes_1", "mask_bytes_2", "mask_bytes_3",
               "depth_0", "depth_1", "depth_2", "depth_3", "depth_10", "biasL_107", "biasL_1131", "biasL_32768",
               "biasG_107", "biasG_1131", "biasG_32768"]
+# seac: per charset format, where the SID of a component sits (classes computed by TLC, counted by the harness from the
+# cases it was given - nothing here depends on what allsorts answered)
+_RANGE_POS = ["%s-range|%s" % (r, p) for r in ("first", "later") for p in ("first", "inner", "last", "only")]
+NEEDED_SEAC = (["seac|%s|%s" % (f, k) for f in ("f1", "f2") for k in _RANGE_POS + ["missing-adjacent", "missing-far"]] +
+               ["seac|f0|%s" % k for k in ("first-entry", "later-entry", "missing-adjacent", "missing-far")] +
+               ["seac|%s|%s" % (f, k) for f in ("iso", "expert", "expsub")
+                for k in ("predefined|inner", "predefined|last-glyph", "missing-adjacent", "missing-far")] +
+               ["seac_wf_true", "seac_wf_false", "seac_range_nleft_255", "seac_range_nleft_above_255"])
 NEEDED_FAM = ["forms/cff", "forms/cff2", "wrap/cff", "wrap/cid", "wrap/cff2", "wrap/cff2fd", "bias/cff", "bias/cid",
               "bias/cff2", "seac/cff", "blend/cff2", "misc/cff", "misc/cff2"]
-STAT_KEYS = ["judged", "exact", "fuzzy", "notwf", "cmds", "withsubrs", "withmask", "withwidth", "deep", "blends", "empty"]
+STAT_KEYS = ["judged", "exact", "fuzzy", "notwf", "cmds", "withsubrs", "withmask", "withwidth", "deep", "blends", "empty",
+             "seac"]
 
 
 def _cmd_class(want, got):
@@ -81,79 +95,8 @@ def _selftest_cases(sample):
     return out
 
 
-def run(ctx):
-    binp = vlib.build_harness("c18_type2")
-    cfg = "MC_Type2_quick.cfg" if ctx.quick else "MC_Type2_thorough.cfg"
-
-    # ---- spec -> impl ------------------------------------------------------------------------
-    cases_path = ctx.path("cases.ndjson")
-    n_cases = [0]
-    samples = {}
-    with open(cases_path, "w") as fc:
-        def sink(tag, payload):
-            if tag != "CASE":
-                return
-            fc.write(payload + "\n")
-            n_cases[0] += 1
-            # samples (and the source of the self-test cases): per family the smallest line, so that the choice does
-            # not depend on the order in which TLC's workers print
-            if len(payload) < 3000:
-                for fam in ("forms", "wrap", "blend", "seac"):
-                    if ('"fam":"%s"' % fam) in payload and (fam not in samples or (len(payload), payload) < samples[fam]):
-                        samples[fam] = (len(payload), payload)
-        mc = vlib.run_tlc(ctx, "MC_Type2", cfg, "mc", workers=4, timeout=600 if ctx.quick else 1500, sink=sink)
-        if n_cases[0] == 0:
-            raise vlib.ToolError("no CASE lines generated")
-        samples = {k: json.loads(v[1]) for k, v in samples.items()}
-        src = samples.get("forms") or samples.get("wrap")
-        if src is None or not any(x["c"] in ("L", "C") for x in src["exp"]["cmds"]):
-            raise vlib.ToolError("self-check: no forms/wrap case to corrupt")
-        planted_cases = _selftest_cases(src)
-        for c in planted_cases:
-            fc.write(json.dumps(c, separators=(",", ":")) + "\n")
-    ctx.note("MC_Type2 (%s): %d states generated, %d distinct, depth %d, %d cases; design invariants MachineOK FormOK "
-             "EncodingsOK GenExact hold (%.1fs)" % (cfg, mc.generated, mc.distinct, mc.depth, n_cases[0], mc.wall))
-
-    mism_path = ctx.path("mismatches.ndjson")
-    rep = vlib.run_harness(binp, ["replay", cases_path, mism_path, ctx.seed], timeout=1500)
-    ctx.note("replay: %d cases, %d runs, %d mismatching runs, number forms %s" %
-             (rep["cases"], rep["runs"], rep["mismatches"], json.dumps(rep["number_forms_used"])))
-    if rep["cases"] != n_cases[0] + len(planted_cases):
-        raise vlib.ToolError("replay consumed %d cases, expected %d" % (rep["cases"], n_cases[0] + len(planted_cases)))
-    if rep["writer_selfcheck_ok"] != rep["runs"]:
-        raise vlib.ToolError("the independent reader could not re-read %d of the %d written tables" %
-                             (rep["runs"] - rep["writer_selfcheck_ok"], rep["runs"]))
-    # vacuity of the generator
-    missing = [o for o in NEEDED_OPS if rep["operators_used"].get(o, 0) == 0]
-    missing += [k for k in NEEDED_VAC if rep["vacuity"].get(k, 0) == 0]
-    missing += [k for k in NEEDED_FAM if rep["cases_per_family"].get(k, 0) == 0]
-    missing += ["number_form_" + k for k, v in rep["number_forms_used"].items() if v == 0]
-    if missing:
-        raise vlib.ToolError("generator is vacuous for: %s" % missing)
-
-    violations = []
-    per_key = {}
-    selftest_seen = set()
-    selftest_runs = 0
-    for m in vlib.read_ndjson(mism_path):
-        if m["fam"] == "selftest":
-            selftest_seen.add(m["tag"])
-            selftest_runs += 1
-            continue
-        cls = _cmd_class(m["want"], m["got"])
-        key = "gen|%s|%s|%s|%s" % (m["fam"], m["kind"], m["feat"], cls)
-        per_key[key] = per_key.get(key, 0) + 1
-        if per_key[key] > 1:
-            continue
-        what = "generated %s/%s %s (numbers %s, FDSelect format %s): %s; want %s got %s" % (
-            m["fam"], m["kind"], m["tag"], m["mode"], m["fdselect_format"], cls,
-            vlib.short(m["want"]["cmds"][:3], 160), vlib.short(m["got"]["cmds"][:3] if m["got"]["ok"] else m["got"]["why"], 160))
-        violations.append(Violation(key, what, {"source": "generated", "class": cls, "mismatch": m}))
-    want_self = {c["tag"] for c in planted_cases}
-    if selftest_seen != want_self:
-        raise vlib.ToolError("binding self-check (replay) failed: rejected %s, expected %s" % (sorted(selftest_seen), sorted(want_self)))
-
-    # ---- impl -> spec ------------------------------------------------------------------------
+def _recorded_stage(ctx, binp, violations, per_key):
+    """impl -> spec: record the repository glyphs, judge them; appends to violations / per_key."""
     rec_trace = ctx.path("rec_trace.ndjson")
     budget = 3500 if ctx.quick else 0          # 0: every glyph of every font
     rec = vlib.run_harness(binp, ["record", ctx.seed, budget, rec_trace])
@@ -163,7 +106,7 @@ def run(ctx):
     if rec["independent_reader_failed"]:
         raise vlib.ToolError("independent CFF reader failed on %s" % rec["independent_reader_failed"])
     for font in ("Klei.otf", "SourceCodePro-Regular.otf", "NotoSansJP-Regular.otf", "SourceSansVariable-Roman.abc.otf",
-                 "SourceSans3-Instance.256.otf"):
+                 "SourceSans3-Instance.256.otf", "synthetic-seac.cff"):
         if rec["per_font"].get(font, 0) == 0:
             raise vlib.ToolError("no glyph of %s recorded" % font)
 
@@ -233,7 +176,7 @@ def run(ctx):
     want_self = {x["case"] for x in planted}
     if seen_self != want_self:
         raise vlib.ToolError("binding self-check (judge) failed: rejected %s, expected exactly %s" % (sorted(seen_self), sorted(want_self)))
-    for k in ("judged", "exact", "withsubrs", "withmask", "withwidth", "deep", "blends"):
+    for k in ("judged", "exact", "withsubrs", "withmask", "withwidth", "deep", "blends", "seac"):
         if stats.get(k, 0) == 0:
             raise vlib.ToolError("judge statistics are vacuous for %s" % k)
 
@@ -258,6 +201,107 @@ def run(ctx):
     for k, n in sorted(per_key.items()):
         ctx.note("mismatch class %s: %d" % (k, n))
 
+    return rec, stats, other, planted, src_ev
+
+
+def run(ctx):
+    binp = vlib.build_harness("c18_type2")
+    cfg = "MC_Type2_quick.cfg" if ctx.quick else "MC_Type2_thorough.cfg"
+
+    # ---- spec -> impl ------------------------------------------------------------------------
+    cases_path = ctx.path("cases.ndjson")
+    n_cases = [0]
+    samples = {}
+    with open(cases_path, "w") as fc:
+        def sink(tag, payload):
+            if tag != "CASE":
+                return
+            fc.write(payload + "\n")
+            n_cases[0] += 1
+            # samples (and the source of the self-test cases): per family the smallest line, so that the choice does
+            # not depend on the order in which TLC's workers print
+            if len(payload) < 3000:
+                for fam in ("forms", "wrap", "blend", "seac"):
+                    if ('"fam":"%s"' % fam) in payload and (fam not in samples or (len(payload), payload) < samples[fam]):
+                        samples[fam] = (len(payload), payload)
+        mc = vlib.run_tlc(ctx, "MC_Type2", cfg, "mc", workers=4, timeout=600 if ctx.quick else 1500, sink=sink)
+        if n_cases[0] == 0:
+            raise vlib.ToolError("no CASE lines generated")
+        samples = {k: json.loads(v[1]) for k, v in samples.items()}
+        src = samples.get("forms") or samples.get("wrap")
+        if src is None or not any(x["c"] in ("L", "C") for x in src["exp"]["cmds"]):
+            raise vlib.ToolError("self-check: no forms/wrap case to corrupt")
+        planted_cases = _selftest_cases(src)
+        for c in planted_cases:
+            fc.write(json.dumps(c, separators=(",", ":")) + "\n")
+    ctx.note("MC_Type2 (%s): %d states generated, %d distinct, depth %d, %d cases; design invariants MachineOK FormOK "
+             "EncodingsOK GenExact hold (%.1fs)" % (cfg, mc.generated, mc.distinct, mc.depth, n_cases[0], mc.wall))
+
+    mism_path = ctx.path("mismatches.ndjson")
+    rep = vlib.run_harness(binp, ["replay", cases_path, mism_path, ctx.seed], timeout=1500)
+    ctx.note("replay: %d cases, %d runs, %d mismatching runs, number forms %s" %
+             (rep["cases"], rep["runs"], rep["mismatches"], json.dumps(rep["number_forms_used"])))
+    if rep["cases"] != n_cases[0] + len(planted_cases):
+        raise vlib.ToolError("replay consumed %d cases, expected %d" % (rep["cases"], n_cases[0] + len(planted_cases)))
+    if rep["writer_selfcheck_ok"] != rep["runs"]:
+        raise vlib.ToolError("the independent reader could not re-read %d of the %d written tables" %
+                             (rep["runs"] - rep["writer_selfcheck_ok"], rep["runs"]))
+    # vacuity of the generator
+    missing = [o for o in NEEDED_OPS if rep["operators_used"].get(o, 0) == 0]
+    missing += [k for k in NEEDED_VAC + NEEDED_SEAC if rep["vacuity"].get(k, 0) == 0]
+    missing += [k for k in NEEDED_FAM if rep["cases_per_family"].get(k, 0) == 0]
+    missing += ["number_form_" + k for k, v in rep["number_forms_used"].items() if v == 0]
+    if missing:
+        raise vlib.ToolError("generator is vacuous for: %s" % missing)
+
+    violations = []
+    per_key = {}
+    selftest_seen = set()
+    selftest_runs = 0
+    for m in vlib.read_ndjson(mism_path):
+        if m["fam"] == "selftest":
+            selftest_seen.add(m["tag"])
+            selftest_runs += 1
+            continue
+        cls = _cmd_class(m["want"], m["got"])
+        key = "gen|%s|%s|%s|%s" % (m["fam"], m["kind"], m["feat"], cls)
+        per_key[key] = per_key.get(key, 0) + 1
+        if per_key[key] > 1:
+            continue
+        what = "generated %s/%s %s (numbers %s, FDSelect format %s): %s; want %s got %s" % (
+            m["fam"], m["kind"], m["tag"], m["mode"], m["fdselect_format"], cls,
+            vlib.short(m["want"]["cmds"][:3], 160), vlib.short(m["got"]["cmds"][:3] if m["got"]["ok"] else m["got"]["why"], 160))
+        violations.append(Violation(key, what, {"source": "generated", "class": cls, "mismatch": m}))
+    want_self = {c["tag"] for c in planted_cases}
+    if selftest_seen != want_self:
+        raise vlib.ToolError("binding self-check (replay) failed: rejected %s, expected %s" % (sorted(selftest_seen), sorted(want_self)))
+
+    # ---- impl -> spec ------------------------------------------------------------------------
+    # Everything in this stage that can fail as a tool error (no suitable recorded event to corrupt, judge
+    # statistics, a judge that dies) may do so BECAUSE the tree is broken: violations found so far are reported
+    # first (exit 1), the tool error only when there is none.
+    try:
+        rec, stats, other, planted, src_ev = _recorded_stage(ctx, binp, violations, per_key)
+    except vlib.ToolError as e:
+        known = vlib.load_known(ctx.prop)
+        if not [v for v in violations if v.key not in known]:
+            raise
+        ctx.note("recorded stage failed as a tool error AFTER violations were found in the generated stage; "
+                 "reporting the violations: %s" % str(e)[:500])
+        for k, n in sorted(per_key.items()):
+            ctx.note("mismatch class %s: %d" % (k, n))
+        vlib.finish(ctx, LEVEL, {
+            "states": mc.distinct, "transitions": mc.generated,
+            "traces_validated_against_impl": rep["runs"] - selftest_runs,
+            "samples": [samples[k] for k in sorted(samples)],
+            "generated_cases": n_cases[0], "generated_cases_per_family": rep["cases_per_family"],
+            "replay_runs": rep["runs"] - selftest_runs, "replay_mismatching_runs": rep["mismatches"] - selftest_runs,
+            "generated_case_features": rep["vacuity"], "mismatch_classes": per_key,
+            "recorded_stage_tool_error": str(e)[:2000], "tlc_depth": mc.depth, "exhaustive": True,
+            "explanation": "generated stage complete (config %s); the recorded stage did not complete" % cfg,
+        }, violations, ASSUMPTIONS)
+
+    budget = 3500 if ctx.quick else 0
     notwf = {}
     notwf_accepted = 0
     for s in other["NOTWF"]:
